@@ -138,6 +138,15 @@ class World(object):
     def groups(self):
         return self.T.TableGroupCacheManager._TABLE_GROUP_CACHE._groups
 
+    def compiled_keys(self):
+        ks = set()
+        for ci, c in enumerate(self.clients):
+            for k in ('dec', 'enc'):
+                mgr = c[k].compiled_template_manager
+                if mgr is not None:
+                    ks.update((ci, k, repr(key)) for key in mgr.cache)
+        return ks
+
     def compiled_sizes(self):
         n = 0
         for c in self.clients:
@@ -281,6 +290,7 @@ def execute(plan):
         for i, op in enumerate(plan['ops']):
             g0 = set(w.groups().keys())
             c0 = w.compiled_sizes()
+            k0 = w.compiled_keys()
             f0 = w.io.fired
             ev = {'i': i}
             try:
@@ -300,6 +310,11 @@ def execute(plan):
                 w.probes['io_fired'] += 1
             w.probes['max_groups'] = max(w.probes['max_groups'], len(g1))
             c1 = w.compiled_sizes()
+            if op['op'] not in ('restart', 'load_compiled'):
+                gone = len(k0 - w.compiled_keys())
+                if gone:
+                    w.probes['compiled_evictions'] += gone
+                    ev['cevict'] = gone
             ev['st'] = [len(g1), c1]
             if 'c' in op and op['op'] in ('decode', 'encode', 'decode_bad', 'subset_encode'):
                 cl = w.clients[op['c']]
@@ -749,7 +764,8 @@ def shape(plan, tr=None):
 
 def nontrivial(plan, tr):
     p = tr['probes']
-    return bool(p['evictions'] or p['failed_ops'] or p['io_fired'] or p['restarts'] or p['loaded_templates'])
+    return bool(p['evictions'] or p['failed_ops'] or p['io_fired'] or p['restarts'] or p['loaded_templates'] or
+                p.get('compiled_evictions'))
 
 
 def abstract_states(plan, tr):
